@@ -334,6 +334,28 @@ def _guarded_same_unit(e: Any) -> bool:
 HELPER_OPS = {"_add": ast.Add, "_sub": ast.Sub, "_mul": ast.Mult, "_div": ast.Div, "_pow": ast.Pow}
 
 
+def _expand_predicate(prog: Program, fi: Any, test: ast.AST) -> ast.AST:
+    """`if _either_is_decimal(left, right):` -> the predicate's own expression with the arguments substituted (a same-module
+    function whose body is one `return <expression>`)."""
+    import copy
+    if not (isinstance(test, ast.Call) and isinstance(test.func, ast.Name) and not test.keywords):
+        return test
+    q = prog.modules[fi.module].functions.get(test.func.id)
+    h = prog.functions[q].node if q and q in prog.functions else None
+    if h is None:
+        return test
+    body = [st for st in h.body if not (isinstance(st, ast.Expr) and isinstance(st.value, ast.Constant))]
+    hp = [a.arg for a in h.args.args]
+    if len(body) != 1 or not isinstance(body[0], ast.Return) or body[0].value is None or len(hp) != len(test.args):
+        return test
+    m = dict(zip(hp, test.args))
+
+    class Sub(ast.NodeTransformer):
+        def visit_Name(self, n: ast.Name) -> ast.AST:
+            return copy.deepcopy(m[n.id]) if n.id in m and isinstance(n.ctx, ast.Load) else n
+    return Sub().visit(copy.deepcopy(body[0].value))
+
+
 def check_decimal_helpers(rep: Report, prog: Program, rid: str) -> None:
     for name, op in HELPER_OPS.items():
         fi = prog.func(name)
@@ -346,7 +368,7 @@ def check_decimal_helpers(rep: Report, prog: Program, rid: str) -> None:
         if len(ifs) != 1 or len(rets) != 1 or len(params) != 2:
             ok, why = False, "shape is not `if <Decimal test>: return D(a) op D(b)` / `return a op b`"
         else:
-            test = ifs[0].test
+            test = _expand_predicate(prog, fi, ifs[0].test)
             tested = set()
             for c in ast.walk(test):
                 if isinstance(c, ast.Call) and isinstance(c.func, ast.Name) and c.func.id == "isinstance" and len(c.args) == 2 \
